@@ -243,7 +243,7 @@ C11Spell3(i) ==
          Cmd("require", i, "", 0, SpellOf("dir", ModSeq[1]), "imp"),
          Cmd("require", i, "", 0, SpellOf("dot", ModSeq[1]), "unq") }
 C11Two(i) ==
-  { Cmd("require", i, "", 0, m, f) : m \in ModIds, f \in {"plain", "unq", "impx", "asx"} }
+  { Cmd("require", i, "", 0, m, f) : m \in ModIds, f \in {"plain", "unq", "asx"} }
   \cup { Cmd("bump", i, n, 1, "", "") : n \in UNION {{m, NBump(m)} : m \in ModIds} }
 AltFS11 == ("i2" :> FSOfAlt(ModSeq))
 (* ---- Round 3 (C11) end ---------------------------------------------------- *)
